@@ -19,7 +19,7 @@ RULE = (
     "non-trivial = the screen has >=2 plates and the op is not a no-op on the model"
 )
 ASSUMPTIONS = ["revealing a set consisting only of unknown plate ids may either raise ValueError or return the screen unchanged", "refusal of all-zero values is judged only when every plate of the revealed set is all zero"]
-REQUIRED = {"refused_set_observed_calls": {"quick": 200, "thorough": 3000}, "constructor_cases_with_a_library_size_plate": {"quick": 6, "thorough": 6}, "constructor_cases_with_non_bool_mask": {"quick": 60, "thorough": 900}, "view_plate_counts_checked": {"quick": 500, "thorough": 8000}, "cli_refusals_checked": {"quick": 60, "thorough": 800}, "constructor_cases_with_unusual_values": {"quick": 40, "thorough": 600}, "reveals_with_negative_unknown_id": {"quick": 60, "thorough": 900}, "history_steps_checked": {"quick": 2500, "thorough": 40000}, "reveals_checked": {"quick": 600, "thorough": 10000}, "refusals_checked": {"quick": 100, "thorough": 1500}, "constructor_cases": {"quick": 150, "thorough": 2500}, "cli_steps": {"quick": 100, "thorough": 1500}, "earlier_stage_rechecks": {"quick": 10000, "thorough": 150000}, "branches": {"quick": 200, "thorough": 3000}, "in_place_reveals": {"quick": 150, "thorough": 2000}}
+REQUIRED = {"long_reveal_requests_with_a_far_away_unknown_id": {"quick": 20, "thorough": 300}, "refused_set_observed_calls": {"quick": 200, "thorough": 3000}, "constructor_cases_with_a_library_size_plate": {"quick": 6, "thorough": 6}, "constructor_cases_with_non_bool_mask": {"quick": 60, "thorough": 900}, "view_plate_counts_checked": {"quick": 500, "thorough": 8000}, "cli_refusals_checked": {"quick": 60, "thorough": 800}, "constructor_cases_with_unusual_values": {"quick": 40, "thorough": 600}, "reveals_with_negative_unknown_id": {"quick": 60, "thorough": 900}, "history_steps_checked": {"quick": 2500, "thorough": 40000}, "reveals_checked": {"quick": 600, "thorough": 10000}, "refusals_checked": {"quick": 100, "thorough": 1500}, "constructor_cases": {"quick": 150, "thorough": 2500}, "cli_steps": {"quick": 100, "thorough": 1500}, "earlier_stage_rechecks": {"quick": 10000, "thorough": 150000}, "branches": {"quick": 200, "thorough": 3000}, "in_place_reveals": {"quick": 150, "thorough": 2000}}
 N_HIST = {"quick": 960, "thorough": 9600}
 
 
@@ -77,6 +77,11 @@ def run_shard(rec, tier, seed, shard, nshards):
             if rng.random() < 0.01:
                 kw = gen.realistic_screen_kwargs(rng, n_samples=(3, 8), n_drugs=(4, 8), n_rows=(1500, 4500), n_plates=(10, 60), observed="some")
                 rec.count("large_screen_histories")
+            many_plates = bool(hi % 10 == 9)
+            if many_plates:
+                # a screen of many small plates, revealed by long requests (a whole round of 20-40 plates at once)
+                kw = gen.realistic_screen_kwargs(rng, n_samples=(2, 5), n_rows=(150, 260), n_plates=(60, 90), observed=str(rng.choice(["none", "some"])))
+                rec.count("histories_on_screens_with_many_plates")
             screen = Screen(**kw)
             model = Model(screen)
             trace = []
@@ -103,6 +108,15 @@ def run_shard(rec, tier, seed, shard, nshards):
                         k = int(rng.integers(1, min(4, len(ids_all)) + 1))
                         ids = [int(x) for x in rng.choice(ids_all, size=k, replace=False)]
                         flavour = rng.random()
+                        if many_plates and len(ids_all) >= 40:
+                            k = int(rng.integers(18, 41))
+                            ids = [int(x) for x in rng.choice(ids_all, size=k, replace=False)]
+                            rec.count("long_reveal_requests")
+                            if flavour < 0.5:
+                                # ... with an id from another numbering among them (far away from every plate id)
+                                ids.insert(int(rng.integers(0, len(ids) + 1)), int(rng.choice([1_000_000, 2**31 - 1, 10**12])))
+                                flavour = 1.0
+                                rec.count("long_reveal_requests_with_a_far_away_unknown_id")
                         if flavour < 0.2:
                             ids = ids + [ids[0]]  # repeated
                         elif flavour < 0.3:
